@@ -218,6 +218,10 @@ fn main() {
             }
         }
         cx.run_cases("c-ipa", &ccases, |(i, mu)| ipa::eval(&sts[*i].0, &proofs[*i], mu));
+        // the Fiat-Shamir schedule of prover and verifier against the model, for every size
+        let scases: Vec<(String, usize)> = sts.iter().enumerate().map(|(i, (st, _))| (format!("{}/fs-schedule", st.name), i)).collect();
+        cx.run_cases("c-ipa-schedule", &scases, |i| ipa::eval_schedule(&sts[*i].0));
+        cx.require(cx.class_count("c-ipa-schedule:fs-schedule:verifier:conforms") + cx.class_count("c-ipa-schedule:fs-schedule:verifier:deviates") as u64 >= sts.len() as u64, "the IPA schedule was compared for every statement size");
         let mut mal = vec![];
         for a in 0..=5usize {
             for b in 0..=5usize {
